@@ -79,7 +79,7 @@ fn forms_ct(
     match (&r_new, &r_dest) {
         (Ok(a), Ok(b)) => {
             if !ct_bytes_eq(a, b) {
-                problem = Some("value-returning and destination forms differ".to_string());
+                problem = Some(format!("value-returning and destination forms differ: {}", ct_diff(a, b)));
             }
         }
         (Err(_), Err(_)) => {}
@@ -90,7 +90,7 @@ fn forms_ct(
         match (&r_new, r_inpl) {
             (Ok(a), Ok(b)) => {
                 if !ct_bytes_eq(a, b) {
-                    problem = Some("value-returning and in-place forms differ".to_string());
+                    problem = Some(format!("value-returning and in-place forms differ: {}", ct_diff(a, b)));
                 }
             }
             (Err(_), Err(_)) => {}
@@ -256,6 +256,36 @@ pub fn exec_step(s: &Suite, cfg: &Cfg, pool: &Pool, act: &Value, dst: &str) -> O
                 // the value-returning symmetric form keeps the seed
                 _ => single(guarded(|| Obj::Ct(s.encryptor.encrypt_symmetric_new(p)))),
             }
+        }
+        "encrypt_other" => {
+            // encryption under the second secret key of the context (C04: the operand of a key switch)
+            let p = get_pt(pool, p_name)?;
+            match act["mode"].as_str().unwrap() {
+                "pk" => single(guarded(|| Obj::Ct(s.encryptor2.encrypt_new(p)))),
+                "pkd" => single(guarded(|| {
+                    let mut d = prior_ct();
+                    s.encryptor2.encrypt(p, &mut d);
+                    Obj::Ct(d)
+                })),
+                "sk" => single(guarded(|| {
+                    let mut d = prior_ct();
+                    s.encryptor2.encrypt_symmetric(p, &mut d);
+                    Obj::Ct(d)
+                })),
+                _ => single(guarded(|| Obj::Ct(s.encryptor2.encrypt_symmetric_new(p)))),
+            }
+        }
+        "keyswitch" => {
+            let a = get_ct(pool, a_name)?;
+            forms_ct(
+                || ev.apply_keyswitching_new(a, &s.ksk),
+                |d| ev.apply_keyswitching(a, &s.ksk, d),
+                Some(Box::new(|| {
+                    let mut x = a.clone();
+                    ev.apply_keyswitching_inplace(&mut x, &s.ksk);
+                    x
+                })),
+            )
         }
         "encrypt_zero" => {
             let id = s.level_ids[lvl as usize];
@@ -570,13 +600,19 @@ pub fn exec_step(s: &Suite, cfg: &Cfg, pool: &Pool, act: &Value, dst: &str) -> O
 
 /// Observed projection of an object, including the decrypted / decoded value when it can be obtained.
 pub fn observe(s: &Suite, o: &Obj, want_value: bool) -> Value {
+    observe_under(s, o, want_value, 1)
+}
+
+/// `key` = 2: the ciphertext is (according to the caller) under the second secret key; its value is read with that key
+pub fn observe_under(s: &Suite, o: &Obj, want_value: bool, key: u64) -> Value {
+    let decryptor = if key == 2 { &s.decryptor2 } else { &s.decryptor };
     match o {
         Obj::Ct(c) => {
             let mut j = project_ct(s, c);
             j["valid"] = json!(guarded(|| c.is_valid_for(&s.ctx)).unwrap_or(false));
             j["ivalid"] = json!(independent_valid_ct(s, c).is_ok());
             if want_value && !is_seeded(c) {
-                if let Ok(v) = value_of_ct(s, c) {
+                if let Ok(v) = value_of_ct_with(s, c, decryptor) {
                     j["val"] = val_json(&v);
                 }
                 if s.ps.scheme != SchemeType::CKKS {
@@ -585,7 +621,7 @@ pub fn observe(s: &Suite, o: &Obj, want_value: bool) -> Value {
                         if x.is_ntt_form() {
                             s.evaluator.transform_from_ntt_inplace(&mut x);
                         }
-                        s.decryptor.invariant_noise_budget(&x)
+                        decryptor.invariant_noise_budget(&x)
                     });
                     if let Ok(b) = budget {
                         j["budget"] = json!(b);
@@ -614,7 +650,7 @@ pub fn observe(s: &Suite, o: &Obj, want_value: bool) -> Value {
 /// Compare an observed object with the projection the specification expects.
 /// Ok(true) = matches; Ok(false) = allowed divergence (stop checking this behaviour); Err = violation.
 pub fn compare(s: &Suite, exp: &Value, o: &Obj) -> Result<bool, String> {
-    let obs = observe(s, o, exp["cmp"].as_bool().unwrap_or(false));
+    let obs = observe_under(s, o, exp["cmp"].as_bool().unwrap_or(false), exp["key"].as_u64().unwrap_or(1));
     let kind = exp["kind"].as_str().unwrap();
     if obs["kind"].as_str().unwrap() != kind {
         return Err(format!("kind {} expected {}", obs["kind"], kind));
